@@ -8,10 +8,14 @@ from harness import gen
 from harness.framework import Suite
 
 PID = "C05"
-LEAN_MODS = ["SwcVerif.Props.C05"]
+LEAN_MODS = ["SwcVerif.Props.C05", "SwcVerif.Props.C05Gen"]
+TRANSLATE_ALGO = ["AlgoSort"]          # Gen/AlgoSort.lean is regenerated from normalizer.py::sort_nodes_impl on every run
+DRIVER_FILES = ["SwcVerif/Model/AlgoRun.lean"]
 THEOREMS = [
     "C05.machine_eq_pre", "C05.sort_ok", "C05.sort_perm", "C05.sort_sorted", "C05.sort_parent", "C05.sort_root",
     "C05.sort_indices", "C05.edge_is_row", "C05.sort_columns", "C05.sort_again", "C05.isSorted_iff",
+    # refinement: the definition generated from sort_nodes_impl on this run returns the model's result
+    "RefineSort.sort_refines", "C05.generated_sort_ok", "C05.generated_eq_model",
 ]
 TRUSTED = ["hand-written model Model/Sort.lean of sort_nodes_impl (tied by the c05.sort correspondence suite: new parents, row indices and id map compared exactly)"]
 ASSUMPTIONS = [
@@ -177,6 +181,8 @@ class SortSuite(Suite):
         a = f"ids={gen.ints(case['ids'])} pids={gen.ints(case['pids'])}"
         idmap = [case["ids"][k] for k in i["indices"]]
         return [("sort " + a, f"{gen.ints(i['new_pids'])} / {gen.ints(i['indices'])} / {gen.ints(idmap)}"),
+                # the definition generated from sort_nodes_impl on this run (translator cross-check)
+                ("gsort " + a, f"{gen.ints(i['new_pids'])} / {gen.ints(i['indices'])}"),
                 ("issorted " + a, str(res["is_sorted_in"])),
                 (f"issorted ids={gen.ints(res['df']['id'])} pids={gen.ints(res['df']['pid'])}", str(res["is_sorted_out"]))]
 
@@ -211,9 +217,12 @@ class SortSuite(Suite):
 SUITES = [SortSuite()]
 TECHNIQUE = ("Lean 4 theorems: the stack loop of sort_nodes_impl equals a structural pre-order on Rose (induction, any shape/numbering/row order); "
              "the output is a bijective relabelling that transports the parent relation and permutes every column, with parents before children "
-             "+ differential correspondence of the loop model against sort_nodes_impl + direct relabelling oracle on sort_tree / sort_nodes / read_swc(sort_nodes=True)")
+             "sort_nodes_impl itself is TRANSLATED from the current source on every run (harness/translate_algo.py → Gen/AlgoSort.lean: np.full_like fillers, list-as-stack, "
+             "`old_ids[old_pids == old_id]`, dict(zip(...)) index, final comprehension) and proved to return the model's result on every tree table (RefineSort.sort_refines, C05.generated_sort_ok) "
+             "+ differential correspondence of the loop model AND the generated definition against sort_nodes_impl + direct relabelling oracle on sort_tree / sort_nodes / read_swc(sort_nodes=True)")
 LEVEL_TEXT = ("Kernel-checked for every table that is a tree (arbitrary distinct ids, arbitrary row order, root anywhere): the model of the sorting loop "
               "terminates after exactly n pops, its id map is a permutation of the ids, new parent = new index of the old parent (root ↦ -1), every parent "
               "index is smaller than the child's, node 0 is the root, and every column is read through the same row permutation; sorting again is again such a relabelling.")
-LEVEL_NOTE = ("Trusted: Lean kernel; hand-written loop model tied to the code on generated tables only; numpy mask indexing and dict semantics; "
+LEVEL_NOTE = ("Trusted: Lean kernel; the imperative translator and its semantics library Model/Py.lean (numpy mask indexing, list / dict semantics; cross-checked by running the generated "
+              "definition against the real function); the DataFrame glue of sort_nodes_ / _sort_tree is tied by correspondence; "
               "pandas column assignment.")
